@@ -1,7 +1,15 @@
 //! C07: counts heap traffic (alloc / realloc / dealloc) of the allocation-free API surface.
 //! Input line: `list`  -> scenario names, space separated
-//!             `<scenario> <K> <seed>` -> `<allocs> <reallocs> <deallocs> <extra...>` measured over K
-//!             further calls AFTER construction and one warm-up call.
+//!             `<scenario> <K> <seed> [<family>]` -> `<allocs> <reallocs> <deallocs> <extra...>` measured over K
+//!             further calls AFTER construction and one warm-up call; `family` (0..4, default 0) selects the value
+//!             family the scenario's inputs are drawn from (see `struct R`); the extras of the scenarios aimed at
+//!             one data-dependent branch count how often that branch was demonstrably taken.
+//!             `caps <G|S> <cap0> ; op , op , ...` -> capacity trace of ONE `Processor::with_capacity(cap0)`
+//!             over a graph of stock `Pass` nodes built and processed by the script (G = petgraph::Graph,
+//!             S = StableGraph): `N` add a node, `E a b` add an edge, `R a` remove node a (S only),
+//!             `P o` Processor::process(graph, o).  Output: per `P`, `;`-separated,
+//!             `<stack capacity> <inputs capacity> <allocs + reallocs during the call> <deallocs during the call>`
+//!             (capacities through `Processor::verif_capacities()`, heap traffic from the counting allocator).
 use dasp_envelope as envelope;
 use dasp_frame::Frame;
 use dasp_graph::{node, Buffer, BoxedNode, BoxedNodeSend, NodeData, Processor};
@@ -58,19 +66,100 @@ fn measure(k: usize, mut f: impl FnMut(usize)) -> Vec<i64> {
     vec![(b.0 - a.0) as i64, (b.1 - a.1) as i64, (b.2 - a.2) as i64]
 }
 
-struct R(u64);
+/// Input values.  `fam` selects the VALUE FAMILY every scenario's inputs are drawn from (4th token of the input line):
+///   0 plain     uniform in [-1, 1] / uniform i16 (the only family before round 3)
+///   1 dynrange  segments of 24 draws whose level cycles 1e4, 3, 1, 1e-3, 0, 1e2, 1e-20, 0: loud then quiet, so that
+///               running sums lose the small terms (RMS clamp), envelopes attack and release, clips hit both sides
+///   2 edges     half the draws from a palette of finite special values (+-0, +-1, +-2, 1 +- ulp, subnormals, f32/f64
+///               extremes), integers from {MIN, MIN+1, .., -1, 0, 1, .., MAX}
+///   3 nonfinite mostly plain, 1/16 NaN / +-inf / +-f64::MAX, 1/4 palette
+///   4 ramps     period 192 draws: linear rise to 1.5, plateau, linear fall, silence; sign alternating every other draw
+struct R {
+    s: u64,
+    fam: u8,
+    n: u64,
+}
+const F_EDGE: [f64; 22] = [
+    0.0, -0.0, 1.0, -1.0, 0.5, -0.5, 0.25, 2.0, -2.0, f64::MIN_POSITIVE, 5e-324, 1.0 - f64::EPSILON / 2.0, -1.0 + f64::EPSILON / 2.0,
+    1.0 + f64::EPSILON, 1.1754944e-38, 1e-45, 3.0e38, -3.0e38, 1e300, 1e-300, 0.999_999_94, -0.999_999_94,
+];
+const F_NONFINITE: [f64; 5] = [f64::NAN, f64::INFINITY, f64::NEG_INFINITY, f64::MAX, -f64::MAX];
+const F_LEVELS: [f64; 8] = [1.0e4, 3.0, 1.0, 1.0e-3, 0.0, 1.0e2, 1.0e-20, 0.0];
+const I_EDGE: [i16; 13] = [i16::MIN, i16::MIN + 1, -16384, -256, -2, -1, 0, 1, 2, 255, 16383, i16::MAX - 1, i16::MAX];
 impl R {
-    fn next(&mut self) -> u64 {
-        self.0 ^= self.0 << 13;
-        self.0 ^= self.0 >> 7;
-        self.0 ^= self.0 << 17;
-        self.0
+    fn new(seed: u64, fam: u8) -> R {
+        R { s: seed.wrapping_mul(0x9E3779B97F4A7C15) | 1, fam, n: 0 }
     }
-    fn f(&mut self) -> f64 {
+    fn next(&mut self) -> u64 {
+        self.s ^= self.s << 13;
+        self.s ^= self.s >> 7;
+        self.s ^= self.s << 17;
+        self.s
+    }
+    fn unit(&mut self) -> f64 {
         (self.next() % 2_000_001) as f64 / 1_000_000.0 - 1.0
     }
+    fn f(&mut self) -> f64 {
+        self.n += 1;
+        let n = self.n - 1;
+        match self.fam {
+            1 => {
+                let level = F_LEVELS[((n / 24) % 8) as usize];
+                let u = self.unit();
+                level * if n % 3 == 0 { if u < 0.0 { -1.0 } else { 1.0 } } else { u }
+            }
+            2 => {
+                let c = self.next();
+                let u = self.unit();
+                if c % 2 == 0 { F_EDGE[((c >> 8) % F_EDGE.len() as u64) as usize] } else { u }
+            }
+            3 => {
+                let c = self.next();
+                let u = self.unit();
+                if c % 16 == 0 {
+                    F_NONFINITE[((c >> 8) % 5) as usize]
+                } else if c % 4 == 1 {
+                    F_EDGE[((c >> 8) % F_EDGE.len() as u64) as usize]
+                } else {
+                    u
+                }
+            }
+            4 => {
+                let t = (n % 192) as f64;
+                let env = if t < 48.0 { t / 48.0 } else if t < 96.0 { 1.0 } else if t < 144.0 { (144.0 - t) / 48.0 } else { 0.0 };
+                let _ = self.next();
+                1.5 * env * if (n / 2) % 2 == 0 { 1.0 } else { -1.0 }
+            }
+            _ => self.unit(),
+        }
+    }
     fn i16(&mut self) -> i16 {
-        self.next() as i16
+        match self.fam {
+            0 => self.next() as i16,
+            2 | 3 => {
+                let c = self.next();
+                if c % 2 == 0 { I_EDGE[((c >> 8) % I_EDGE.len() as u64) as usize] } else { (c >> 16) as i16 }
+            }
+            _ => {
+                let x = self.f();
+                (x.max(-1.0).min(1.0) * 32767.0) as i16
+            }
+        }
+    }
+}
+
+/// a `fmt::Write` sink on the stack (Debug output of the API's types must not need the heap either)
+struct StackW {
+    buf: [u8; 2048],
+    n: usize,
+}
+impl std::fmt::Write for StackW {
+    fn write_str(&mut self, s: &str) -> std::fmt::Result {
+        let b = s.as_bytes();
+        let k = b.len().min(self.buf.len() - self.n);
+        self.buf[self.n..self.n + k].copy_from_slice(&b[..k]);
+        self.n += k;
+        Ok(())
     }
 }
 
@@ -89,10 +178,12 @@ const NAMES: &[&str] = &[
     "rectifier_structs", "window_direct", "slice_trait_forms",
     "bus_drop_caught_up", "bus_drop_laggard", "bus_reattach", "graph_fan_in_1500", "graph_chain_1500", "graph_alternating_outputs",
     "graph_node_shapes",
+    // round 3: inputs designed per data-dependent branch, entry points the coverage report listed as never reached
+    "rms_clamp", "rms_clamp_adaptors", "env_attack_release", "conv_ratio_steps", "conv_exhaustion", "sinc_priming", "clip_both_sides", "bounded_full_wrap", "bus_catch_up", "bus_finite_source", "windower_edges", "graph_node_edge_cases", "osc_shapes", "exhaustion_queries", "consume_parts", "fork_rc_schedules", "slice_all_forms", "frame_iters_mono", "sample_all_formats", "custom_int_types", "debug_fmt", "boxed_slice_forms", "size_sweep",
 ];
 
-fn run(name: &str, k: usize, seed: u64) -> Vec<i64> {
-    let mut r = R(seed.wrapping_mul(0x9E3779B97F4A7C15) | 1);
+fn run(name: &str, k: usize, seed: u64, fam: u8) -> Vec<i64> {
+    let mut r = R::new(seed, fam);
     match name {
         "sample_conv" => measure(k, |i| {
             let s = r.i16();
@@ -100,7 +191,7 @@ fn run(name: &str, k: usize, seed: u64) -> Vec<i64> {
             black_box(s.to_sample::<u8>());
             black_box(s.to_sample::<I24>());
             black_box(s.to_sample::<u64>());
-            black_box((r.f() as f32).to_sample::<U24>());
+            black_box((r.f().max(-1.0).min(0.999_999) as f32).to_sample::<U24>()); // documented domain of float -> int: [-1, 1)
             black_box((i as f64 / 1e9).to_sample::<i64>());
         }),
         "sample_amp" => measure(k, |_| {
@@ -654,6 +745,25 @@ fn run(name: &str, k: usize, seed: u64) -> Vec<i64> {
             assert!(a1 == a0, "boxed conversion touched the allocator");
             black_box(s.len());
         }),
+        "boxed_slice_forms" => measure(k, |i| {
+            // the remaining boxed forms (identity impls, free functions, trait methods): one Vec made by the scenario per
+            // iteration, every conversion in between must leave the allocator alone
+            use dasp_slice::{FromBoxedFrameSlice, FromBoxedSampleSlice, ToBoxedFrameSlice, ToBoxedSampleSlice};
+            let b: Box<[i16]> = vec![0i16; 4 * (1 + i % 5)].into_boxed_slice();
+            let a0 = snap();
+            let b: Box<[i16]> = slice::from_boxed_sample_slice(b).unwrap();
+            let b: Box<[i16]> = ToBoxedSampleSlice::to_boxed_sample_slice(b);
+            let f: Box<[[i16; 2]]> = slice::from_boxed_sample_slice(b).unwrap();
+            let f: Box<[[i16; 2]]> = slice::from_boxed_frame_slice(f);
+            let f: Box<[[i16; 2]]> = ToBoxedFrameSlice::to_boxed_frame_slice(f).unwrap();
+            let f: Box<[[i16; 2]]> = FromBoxedFrameSlice::from_boxed_frame_slice(f);
+            let s: Box<[i16]> = slice::from_boxed_frame_slice(f);
+            let g: Box<[[i16; 4]]> = FromBoxedSampleSlice::from_boxed_sample_slice(s).unwrap();
+            let s: Box<[i16]> = g.to_boxed_sample_slice();
+            let a1 = snap();
+            assert!(a1 == a0, "boxed conversion touched the allocator");
+            black_box(s.len());
+        }),
         "boxed_slice_fail" => measure(k, |i| {
             let b: Box<[i16]> = vec![0i16; 6 * (1 + i % 5) + 1].into_boxed_slice();
             let f: Option<Box<[[i16; 3]]>> = slice::to_boxed_frame_slice(b);
@@ -897,6 +1007,957 @@ fn run(name: &str, k: usize, seed: u64) -> Vec<i64> {
                 black_box(g[out].buffers[0][i % 64]);
             })
         }
+        // ------------------------------------------------------------------------------------------------
+        // round 3: scenarios whose INPUTS are designed per data-dependent branch of the allocation-free
+        // surface (every one also runs under each value family).  Extra numbers after the three counters are
+        // witnesses: how often the branch the scenario is aimed at was demonstrably taken.
+        "rms_clamp" => {
+            // wide dynamic range inside one window: while the loud square is in the window the small ones are
+            // absorbed by rounding; when it has left, `sum - removed` is negative and next_squared clamps to 0
+            let mut a = Rms::<[f32; 1], _>::new(ring_buffer::Fixed::from([[0.0f32; 1]; 4]));
+            let mut b = Rms::<[f64; 2], _>::new(ring_buffer::Fixed::from(vec![[0.0f64; 2]; 4]));
+            let mut c = Rms::<[i16; 1], _>::new(ring_buffer::Fixed::from([[0.0f32; 1]; 4]));
+            const P: [f64; 8] = [1.0e4, 3.0, 1.0, 1.0, 0.0, 0.0, 0.5, 0.25];
+            const PI16: [i16; 8] = [32767, 3, 1, 1, 0, 0, 100, -32768];
+            let mut hist = [[0.0f64; 3]; 4];
+            let mut wit = [0i64; 3];
+            let mut v = measure(k, |i| {
+                let g = 1.0 + ((i / 8) % 3) as f64;
+                let noise = if i % 64 >= 48 { r.f() } else { 0.0 }; // a stretch of family-driven input between patterns
+                let x = P[i % 8] * g + noise;
+                let xb = if P[i % 8] == 1.0e4 { 2.0e8 * g } else { x };
+                let xc = if i % 64 >= 48 { r.i16() } else { PI16[i % 8] };
+                let ya = a.next_squared([x as f32]);
+                let yb = b.next([xb, P[(i + 3) % 8] * g]);
+                let yc = c.next([xc]);
+                hist[i % 4] = [x, xb, xc as f64];
+                for (j, y) in [ya[0] as f64, yb[0], yc[0] as f64].iter().enumerate() {
+                    if *y == 0.0 && hist.iter().any(|h| h[j] != 0.0 && h[j].is_finite() && h[j].abs() > 1e-18) {
+                        wit[j] += 1;
+                    }
+                }
+                black_box((a.current(), b.current(), c.current(), a.window_frames()));
+                if i % 257 == 0 {
+                    a.reset();
+                    b.reset();
+                }
+            });
+            v.extend_from_slice(&wit);
+            v
+        }
+        "rms_clamp_adaptors" => {
+            // the same input shape through every route that reaches Rms::next_squared: signal.rms(), Detector::rms,
+            // signal.detect_envelope(Detector::rms(..)); is_exhausted of the adaptors
+            const P: [f32; 8] = [1.0e4, 3.0, 1.0, 1.0, 0.0, 0.0, 0.5, 0.25];
+            let mut n = 0usize;
+            let mut src = signal::gen_mut(move || {
+                n += 1;
+                [P[(n - 1) % 8] * (1 + ((n - 1) / 8) % 3) as f32]
+            });
+            let mut s1 = src.by_ref().rms(ring_buffer::Fixed::from([[0.0f32; 1]; 4]));
+            let mut d = envelope::Detector::<[f32; 1], _>::rms(ring_buffer::Fixed::from(vec![[0.0f32; 1]; 4]), 0.0, 2.0);
+            let mut m = 0usize;
+            let src2 = signal::gen_mut(move || {
+                m += 1;
+                [P[(m - 1) % 8] as f64 * 2.0e4, r.f()]
+            });
+            let mut s3 = src2.detect_envelope(envelope::Detector::rms(ring_buffer::Fixed::from([[0.0f64; 2]; 4]), 1.0, 0.0));
+            let mut wit = 0i64;
+            let mut v = measure(k, |i| {
+                let y = if i % 2 == 0 { s1.next() } else { s1.next_squared() };
+                if y[0] == 0.0 && i % 8 != 4 {
+                    wit += 1;
+                }
+                black_box(d.next([P[i % 8] * (1 + (i / 8) % 3) as f32]));
+                black_box(s3.next());
+                black_box((s1.is_exhausted(), s3.is_exhausted()));
+            });
+            v.push(wit);
+            v
+        }
+        "env_attack_release" => {
+            // rising then falling levels: the attack gain and the release gain are both used, with zero and
+            // non-zero frame counts, for every rectifier and for float and integer frames
+            let mut d1 = envelope::Detector::<[f32; 2], _>::peak(5.0, 20.0);
+            let mut d2 = envelope::Detector::<[i16; 1], _>::peak_positive_half_wave(0.0, 3.0);
+            let mut d3 = envelope::Detector::<[f64; 1], _>::peak_negative_half_wave(2.0, 0.0);
+            let mut d4 = envelope::Detector::<[i32; 1], _>::peak_from_rectifier(dasp_peak::FullWave, 1.0, 1.0);
+            let mut d5 = envelope::Detector::<[f32; 1], envelope::detect::Peak<dasp_peak::PositiveHalfWave>>::new(envelope::detect::Peak::positive_half_wave(), 7.0, 7.0);
+            let (mut up, mut down, mut last) = (0i64, 0i64, 0.0f32);
+            let mut v = measure(k, |i| {
+                let t = i % 80;
+                let level = if t < 20 { t as f32 / 20.0 } else if t < 40 { 1.0 } else if t < 60 { (60 - t) as f32 / 20.0 } else { 0.0 };
+                let x = level * if i % 2 == 0 { 1.0 } else { -1.0 } + 0.01 * r.f() as f32;
+                let e = d1.next([x, -x]);
+                if e[0] > last {
+                    up += 1;
+                } else if e[0] < last {
+                    down += 1;
+                }
+                last = e[0];
+                black_box(d2.next([(level * 30000.0) as i16 - (r.i16() / 64).max(0)]));
+                black_box(d3.next([-(level as f64) + 0.001 * r.f()]));
+                black_box(d4.next([((level * 1.0e9) as i32).wrapping_add(r.i16() as i32)]));
+                black_box(d5.next([x]));
+                if i % 160 == 0 {
+                    d1.set_attack_frames(if i % 320 == 0 { 0.0 } else { 3.0 });
+                    d1.set_release_frames(if i % 480 == 0 { 0.0 } else { 9.0 });
+                }
+            });
+            v.push(up);
+            v.push(down);
+            v
+        }
+        "conv_ratio_steps" => {
+            // ratios above 1 (several source frames consumed per output frame), exactly 1, far below 1 (no
+            // source frame for many outputs), each interpolator; the constructors and setters not used elsewhere
+            use dasp_signal::interpolate::Converter;
+            let mut base = signal::gen_mut(|| [r.f()]);
+            let mut pulls = 0i64;
+            let mut v = measure(k, |i| {
+                let ratio = [3.7, 1.0, 0.001, 17.0, 0.999_999, 2.0][i % 6];
+                let mut c1 = Converter::scale_playback_hz(base.by_ref(), Linear::new([0.0], [0.0]), ratio);
+                for _ in 0..6 {
+                    black_box(c1.next());
+                }
+                black_box(c1.verif_interpolation_value());
+                black_box(c1.into_source().next());
+                let mut c2 = Converter::scale_sample_hz(base.by_ref(), Floor::new([0.0]), ratio);
+                for j in 0..6 {
+                    black_box(c2.next());
+                    if j == 2 {
+                        c2.set_sample_hz_scale(0.3 + (i % 5) as f64);
+                    }
+                }
+                let mut c3 = Converter::from_hz_to_hz(base.by_ref(), Sinc::new(ring_buffer::Fixed::from([[0.0f64; 1]; 6])), 44100.0 * ratio, 44100.0);
+                for _ in 0..6 {
+                    black_box(c3.next());
+                }
+                black_box(c3.is_exhausted());
+                pulls += 1;
+            });
+            v.push(pulls);
+            v
+        }
+        "conv_exhaustion" => {
+            // finite sources behind every interpolator, pulled well past the end; is_exhausted with the source
+            // exhausted and the accumulator below / above one; mul_hz with a finite control signal
+            let frames: Vec<[f64; 1]> = (0..20).map(|i| [i as f64 / 20.0]).collect();
+            let ctl: Vec<f64> = (0..25).map(|i| 0.25 + (i % 7) as f64 * 0.5).collect();
+            let (mut ex, mut notex) = (0i64, 0i64);
+            let mut v = measure(k, |i| {
+                let ratio = [0.5, 1.0, 2.5, 0.07][i % 4];
+                let mut a = signal::from_iter(frames.iter().cloned()).scale_hz(Linear::new([0.0], [0.0]), ratio);
+                let mut b = signal::from_iter(frames.iter().cloned()).scale_hz(Floor::new([r.f()]), ratio);
+                let mut c = signal::from_iter(frames.iter().cloned()).scale_hz(Sinc::new(ring_buffer::Fixed::from([[0.0f64; 1]; 8])), ratio);
+                let mut m = signal::from_iter(frames.iter().cloned()).mul_hz(Linear::new([0.0], [0.0]), signal::from_iter(ctl.iter().cloned()));
+                for _ in 0..60 {
+                    black_box((a.next(), b.next(), c.next(), m.next()));
+                    if a.is_exhausted() {
+                        ex += 1;
+                    } else {
+                        notex += 1;
+                    }
+                    black_box((b.is_exhausted(), c.is_exhausted(), m.is_exhausted()));
+                }
+                let u = signal::from_iter(frames.iter().cloned()).scale_hz(Linear::new([0.0], [0.0]), ratio).until_exhausted();
+                black_box(u.count());
+            });
+            v.push(ex);
+            v.push(notex);
+            v
+        }
+        "sinc_priming" => {
+            // interpolate on a fresh, a partly primed and a fully primed sinc ring of several depths (even lengths:
+            // an odd length is a documented panic of Sinc::new), at x = 0 and x = 1 exactly (the sin(a)/a limit arms) and in between; reset
+            use dasp_interpolate::Interpolator;
+            fn go<S>(si: &mut Sinc<S>, i: usize, r: &mut R)
+            where
+                S: ring_buffer::SliceMut<Element = [f32; 2]>,
+            {
+                for step in 0..(i % 23) {
+                    let x = match (i + step) % 5 {
+                        0 => 0.0,
+                        1 => 1.0,
+                        2 => 0.5,
+                        _ => (r.unit() + 1.0) / 2.0,
+                    };
+                    black_box(si.interpolate(x));
+                    si.next_source_frame([r.f() as f32, r.f() as f32]);
+                }
+                black_box(si.interpolate(0.0));
+                black_box(si.interpolate(1.0));
+                if i % 3 == 0 {
+                    si.reset();
+                }
+            }
+            let mut s2 = Sinc::new(ring_buffer::Fixed::from([[0.0f32; 2]; 2]));
+            let mut s3 = Sinc::new(ring_buffer::Fixed::from([[0.0f32; 2]; 4]));
+            let mut s8 = Sinc::new(ring_buffer::Fixed::from(vec![[0.0f32; 2]; 8]));
+            let mut s17 = Sinc::new(ring_buffer::Fixed::from(vec![[0.0f32; 2]; 18]));
+            measure(k, |i| {
+                go(&mut s2, i, &mut r);
+                go(&mut s3, i, &mut r);
+                go(&mut s8, i, &mut r);
+                go(&mut s17, i, &mut r);
+                // a fresh one on the stack: nothing primed at all
+                let mut fresh = Sinc::new(ring_buffer::Fixed::from([[0.0f32; 2]; 10]));
+                go(&mut fresh, i % 7, &mut r);
+            })
+        }
+        "clip_both_sides" => {
+            // clip_amp with inputs above the threshold, below minus the threshold and in between, for float, signed
+            // and unsigned frames
+            let a = signal::gen_mut(|| [r.unit(), -r.unit()]);
+            let mut ca = a.clip_amp(0.3);
+            let mut x = 0i16;
+            let b = signal::gen_mut(move || {
+                x = x.wrapping_mul(31).wrapping_add(12345);
+                [x]
+            });
+            let mut cb = b.clip_amp(1000);
+            let mut y = 0u8;
+            let c = signal::gen_mut(move || {
+                y = y.wrapping_mul(13).wrapping_add(71);
+                [y, 255 - y]
+            });
+            let mut cc = c.clip_amp(50i8);
+            let mut r2 = R::new(seed + 77, fam);
+            let mut cd = signal::gen_mut(move || [r2.f()]).clip_amp(0.5);
+            let mut wit = [0i64; 3];
+            let mut v = measure(k, |_| {
+                let f = ca.next();
+                for s in f.iter() {
+                    if *s == 0.3 {
+                        wit[0] += 1;
+                    } else if *s == -0.3 {
+                        wit[1] += 1;
+                    } else {
+                        wit[2] += 1;
+                    }
+                }
+                let g = cb.next();
+                if g[0] == 1000 {
+                    wit[0] += 1;
+                } else if g[0] == -1000 {
+                    wit[1] += 1;
+                } else {
+                    wit[2] += 1;
+                }
+                black_box(cc.next());
+                black_box(cd.next());
+                black_box((ca.is_exhausted(), cb.is_exhausted()));
+            });
+            v.extend_from_slice(&wit);
+            v
+        }
+        "bounded_full_wrap" => {
+            // a Bounded ring driven through empty / partly filled / full states many times round the storage: push on
+            // full (evicts), pop on empty, get / get_mut beyond len, drain with its size hint, raw parts
+            fn go<S>(rb: &mut ring_buffer::Bounded<S>, i: usize, r: &mut R, wit: &mut [i64; 4])
+            where
+                S: ring_buffer::SliceMut<Element = i32>,
+            {
+                let n = rb.max_len();
+                let phase = (i / (2 * n + 3)) % 3;
+                match phase {
+                    0 => {
+                        if rb.push(r.next() as i32).is_some() {
+                            wit[0] += 1; // push on a full ring evicted the oldest
+                        }
+                    }
+                    1 => {
+                        if rb.pop().is_none() {
+                            wit[1] += 1; // pop on an empty ring
+                        }
+                    }
+                    _ => {
+                        if i % 2 == 0 {
+                            black_box(rb.push(i as i32));
+                        } else {
+                            black_box(rb.pop());
+                        }
+                    }
+                }
+                for idx in [0, rb.len() / 2, rb.len(), rb.len() + 1, n, usize::MAX].iter() {
+                    if rb.get(*idx).is_none() {
+                        wit[2] += 1;
+                    }
+                    match rb.get_mut(*idx) {
+                        Some(x) => *x = x.wrapping_add(1),
+                        None => wit[3] += 1,
+                    }
+                }
+                black_box((rb.is_full(), rb.is_empty(), rb.len()));
+                if i % 13 == 0 {
+                    let mut d = rb.drain();
+                    black_box((d.size_hint(), d.len()));
+                    black_box(d.next());
+                    black_box(d.len());
+                    black_box(d.count());
+                }
+                let (a, b) = rb.slices();
+                black_box(a.len() + b.len());
+                black_box(rb.iter().rev().next().cloned());
+            }
+            let mut a = ring_buffer::Bounded::from([0i32; 5]);
+            let mut b = ring_buffer::Bounded::from(vec![0i32; 1]);
+            let mut c = ring_buffer::Bounded::from_full(vec![0i32; 8].into_boxed_slice());
+            let mut store = [0i32; 6];
+            let ro = [1i32, 2, 3, 4, 5, 6, 7];
+            let mut wit = [0i64; 4];
+            let mut v = measure(k, |i| {
+                go(&mut a, i, &mut r, &mut wit);
+                go(&mut b, i, &mut r, &mut wit);
+                go(&mut c, i, &mut r, &mut wit);
+                // raw parts round trips (the unsafe constructors with arguments that satisfy their contract)
+                let len = i % 7;
+                let start = i % 6;
+                let mut d = unsafe { ring_buffer::Bounded::from_raw_parts_unchecked(start, len, &mut store[..]) };
+                go(&mut d, i, &mut r, &mut wit);
+                let (s0, l0, _) = unsafe { d.into_raw_parts() };
+                black_box((s0, l0));
+                let fx = unsafe { ring_buffer::Fixed::from_raw_parts_unchecked(i % 6, &mut store[..]) };
+                black_box(fx.iter().count());
+                let (first, st) = fx.into_raw_parts();
+                black_box((first, st.len()));
+                // read-only storage (&[T]): the operations that do not need SliceMut
+                let rd = ring_buffer::Bounded::from_raw_parts(i % 7, (i / 7) % 8, &ro[..]);
+                black_box((rd.len(), rd.get(i % 9).cloned(), rd.iter().count(), rd.slices().0.len(), if rd.len() > 0 { rd[rd.len() - 1] } else { 0 }));
+                let rf = ring_buffer::Fixed::from_raw_parts(i % 7, &ro[..]);
+                black_box((rf.len(), *rf.get(i), rf.iter().count(), rf.slices().1.len(), rf[i % 7]));
+            });
+            v.extend_from_slice(&wit);
+            v
+        }
+        "bus_catch_up" => {
+            // three outputs with different and changing lags; the laggard catches up in bursts.  The first (warm-up)
+            // round reaches the largest lag, so the backlog storage never has to grow afterwards
+            let src = signal::gen_mut(|| [r.f()]);
+            let bus = src.bus();
+            let mut a = bus.send();
+            let mut b = bus.send();
+            let mut c = bus.send();
+            let mut maxb = 0usize;
+            let mut exq = 0i64;
+            let mut v = measure(k, |i| {
+                let lag = if i == 0 { 12 } else { 1 + i % 12 };
+                for _ in 0..lag {
+                    black_box(a.next());
+                }
+                maxb = maxb.max(bus.verif_backlog_len());
+                for _ in 0..lag / 2 {
+                    black_box(b.next());
+                }
+                black_box((a.pending_frames(), b.pending_frames(), c.pending_frames()));
+                for _ in 0..lag {
+                    black_box(c.next());
+                }
+                for _ in 0..(lag - lag / 2) {
+                    black_box(b.next());
+                }
+                if !a.is_exhausted() && !c.is_exhausted() {
+                    exq += 1;
+                }
+            });
+            v.push(maxb as i64);
+            v.push(bus.verif_backlog_len() as i64);
+            v.push(exq);
+            v
+        }
+        "bus_finite_source" => {
+            // a bus over a finite source pulled past its end: is_exhausted with and without pending frames
+            let frames: Vec<[i16; 1]> = (0..30).map(|i| [i]).collect();
+            let bus = signal::from_iter(frames.iter().cloned()).bus();
+            let mut a = bus.send();
+            let mut b = bus.send();
+            for _ in 0..4 {
+                black_box(a.next());
+            }
+            let mut maxb = 0usize;
+            let mut ex = 0i64;
+            let mut v = measure(k, |i| {
+                black_box(a.next());
+                if a.is_exhausted() {
+                    ex += 1;
+                }
+                black_box(b.is_exhausted());
+                black_box(b.next());
+                if i % 5 == 0 {
+                    black_box(b.pending_frames());
+                }
+                maxb = maxb.max(bus.verif_backlog_len());
+            });
+            v.push(maxb as i64);
+            v.push(bus.verif_backlog_len() as i64);
+            v.push(ex);
+            v
+        }
+        "windower_edges" => {
+            // bin / hop combinations at the edges of the chunk schedule: a partial last chunk (dropped), bin equal
+            // to and above the number of frames, hop zero (endless), hop beyond the end; size_hint in each state
+            let frames: Vec<[f32; 1]> = (0..37).map(|i| [i as f32 / 37.0]).collect();
+            let frames16: Vec<[i16; 2]> = (0..16).map(|i| [i * 100, -i * 100]).collect();
+            let mut wit = [0i64; 3];
+            let mut v = measure(k, |i| {
+                let n = 1 + i % 37;
+                let fr = &frames[..n];
+                for (bin, hop) in [(5usize, 3usize), (n, 1), (n + 1, 1), (4, 0), (3, n + 5), (1, 1), (7, 7), (n.max(2) - 1, 2)].iter() {
+                    let mut w = Windower::hann(fr, *bin, *hop);
+                    let h = w.size_hint();
+                    if h.1.is_none() {
+                        wit[0] += 1; // hop == 0
+                    }
+                    if h == (0, Some(0)) {
+                        wit[1] += 1; // no chunk fits
+                    }
+                    let mut chunks = 0usize;
+                    while let Some(chunk) = w.next() {
+                        chunks += 1;
+                        black_box(chunk.take(*bin + 2).count()); // a chunk is an endless iterator (the window phase cycles)
+                        black_box(w.size_hint());
+                        if chunks >= 40 {
+                            break;
+                        }
+                    }
+                    if *hop > 0 && h.1 == Some(chunks) {
+                        wit[2] += 1; // the hint was exact
+                    }
+                }
+                let w2 = Windower::rectangle(&frames16[..(i % 17)], 1 + i % 6, i % 4);
+                black_box(w2.size_hint());
+                for chunk in w2.take(6) {
+                    black_box(chunk.take(9).last());
+                }
+                let mut wn = dasp_signal::window::Window::<[f64; 2], dasp_window::Hann>::new(1 + i % 9);
+                black_box((wn.next(), wn.next(), wn.nth(i % 20)));
+            });
+            v.extend_from_slice(&wit);
+            v
+        }
+        "graph_node_edge_cases" => {
+            // a delay node with no input, self-loop edges (skipped as inputs), nodes made with NodeData::boxed /
+            // boxed1 / boxed2, the Node impls for &mut T, Box<T>, fn pointers and boxed closures, delay rings wrapping
+            type G = petgraph::graph::DiGraph<NodeData<BoxedNode>, ()>;
+            fn silence_fn(_inputs: &[node::Input], out: &mut [Buffer]) {
+                for o in out.iter_mut() {
+                    o.silence();
+                }
+            }
+            let mut g: G = petgraph::graph::DiGraph::new();
+            let lonely_delay = g.add_node(NodeData::boxed2(node::Delay(vec![ring_buffer::Fixed::from(vec![0.0f32; 5]); 2])));
+            let src = g.add_node(NodeData::boxed1(Box::new(signal::noise(11).map(|s| [s as f32])) as Box<dyn Signal<Frame = [f32; 1]>>));
+            let dl = g.add_node(NodeData::boxed(node::Delay(vec![ring_buffer::Fixed::from([0.0f32; 3])]), vec![Buffer::SILENT; 1]));
+            let dl_many = g.add_node(NodeData::boxed(node::Delay(vec![ring_buffer::Fixed::from([0.0f32; 70]); 4]), vec![Buffer::SILENT; 2]));
+            let fp = g.add_node(NodeData::boxed1(silence_fn as fn(&[node::Input], &mut [Buffer])));
+            let bx = g.add_node(NodeData::boxed1(Box::new(node::Pass)));
+            let dynfn = g.add_node(NodeData::new1(BoxedNode(Box::new(Box::new(|_: &[node::Input], out: &mut [Buffer]| {
+                for o in out.iter_mut() {
+                    o.silence();
+                }
+            }) as Box<dyn Fn(&[node::Input], &mut [Buffer])>))));
+            let mut wi = StackW { buf: [0; 2048], n: 0 };
+            let dbg = g.add_node(NodeData::new1(BoxedNode::new(Box::new(move |inputs: &[node::Input], out: &mut [Buffer]| {
+                use std::fmt::Write;
+                wi.n = 0;
+                let _ = write!(wi, "{:?}", inputs.get(0)); // Debug of an Input exists only inside a process call
+                out[0][0] = wi.n as f32;
+            }) as Box<dyn FnMut(&[node::Input], &mut [Buffer])>)));
+            let out = g.add_node(NodeData::boxed2(node::Sum));
+            g.add_edge(src, dbg, ());
+            let mut send_node = BoxedNodeSend::new(node::Pass);
+            for n in [lonely_delay, dl, dl_many, fp, bx, dynfn, dbg].iter() {
+                g.add_edge(*n, out, ());
+            }
+            g.add_edge(src, dl, ());
+            g.add_edge(src, dl_many, ());
+            g.add_edge(src, bx, ());
+            g.add_edge(out, out, ()); // self loops
+            g.add_edge(dl, dl, ());
+            g.add_edge(dl, dl, ());
+            let mut p: Processor<G> = Processor::with_capacity(g.node_count());
+            p.process(&mut g, out);
+            let mut pass = node::Pass;
+            let mut sum = node::Sum;
+            let mut bufs = [Buffer::SILENT, Buffer::default()];
+            let mut w = StackW { buf: [0; 2048], n: 0 };
+            let mut v = measure(k.min(300), |i| {
+                p.process(&mut g, if i % 4 == 0 { dl } else { out });
+                dasp_graph::process(&mut p, &mut g, lonely_delay);
+                // nodes called directly, through the reference / box impls, with no inputs
+                {
+                    use dasp_graph::Node;
+                    let mut rp: &mut dyn Node = &mut pass;
+                    Node::process(&mut rp, &[], &mut bufs[..]);
+                    let mut rs = &mut sum;
+                    Node::process(&mut rs, &[], &mut bufs[..1]);
+                    g[bx].node.process(&[], &mut bufs[..]);
+                    use std::ops::{Deref, DerefMut};
+                    black_box(g[out].node.deref() as *const _);
+                    g[fp].node.deref_mut().process(&[], &mut bufs[..]);
+                    black_box(send_node.deref() as *const _);
+                    send_node.deref_mut().process(&[], &mut bufs[..]);
+                    // a boxed zero-sized node owns no heap block: converting it into the bare box and dropping that is free
+                    let b1: Box<dyn Node> = BoxedNode::new(node::Pass).into();
+                    let b2: Box<dyn Node + Send> = BoxedNodeSend::new(node::Sum).into();
+                    black_box((&*b1 as *const dyn Node, &*b2 as *const (dyn Node + Send)));
+                }
+                bufs[0][i % Buffer::LEN] = i as f32;
+                black_box((bufs[0] == bufs[1], bufs[1] == Buffer::SILENT, bufs[0].len()));
+                bufs[0].silence();
+                if i % 50 == 0 {
+                    use std::fmt::Write;
+                    w.n = 0;
+                    let _ = write!(w, "{:?} {:?}", g[out].node, &bufs[1][..4]);
+                    black_box(w.n);
+                }
+            });
+            v.push(w.n as i64);
+            v
+        }
+        "osc_shapes" => {
+            // saw and square from a frequency SIGNAL (Hz), square in both half periods, phase wrapped to other
+            // moduli, negative and above-rate frequencies, Hz / ConstHz used as signals, a finite control signal
+            use dasp_signal::Step;
+            let ctl: Vec<f64> = (0..40).map(|i| 50.0 + 400.0 * i as f64).collect();
+            let mut f = 20.0f64;
+            let mut sq = signal::rate(1000.0).hz(signal::gen_mut(move || {
+                f = if f > 900.0 { -300.0 } else { f + 37.5 };
+                f
+            })).square();
+            let mut sw = signal::rate(1000.0).hz(signal::gen(|| 123.0f64)).saw();
+            let mut csq = signal::rate(64.0).const_hz(3.0).square();
+            let mut csw = signal::rate(64.0).const_hz(-5.0).saw();
+            let mut hz_sig = signal::rate(8.0).hz(signal::gen(|| 2.0f64));
+            let mut chz_sig = signal::rate(8.0).const_hz(3.0);
+            let mut ph = signal::rate(10.0).const_hz(3.0).phase();
+            let mut ph2 = signal::phase(signal::rate(10.0).hz(signal::gen_mut(|| r.unit() * 20.0)));
+            let (mut hi, mut lo) = (0i64, 0i64);
+            let mut v = measure(k, |i| {
+                for s in [sq.next(), csq.next()].iter() {
+                    if *s > 0.0 {
+                        hi += 1;
+                    } else {
+                        lo += 1;
+                    }
+                }
+                black_box((sw.next(), csw.next()));
+                black_box((Signal::next(&mut hz_sig), Signal::next(&mut chz_sig), hz_sig.is_exhausted(), chz_sig.is_exhausted(), hz_sig.step(), chz_sig.step()));
+                black_box((ph.next_phase_wrapped_to(0.25 + (i % 7) as f64), ph.next_phase(), ph2.next(), ph2.next_phase_wrapped_to(2.0)));
+                // a finite control signal behind every oscillator, pulled past its end
+                if i % 100 == 0 {
+                    let mut s1 = signal::rate(44100.0).hz(signal::from_iter(ctl.iter().cloned())).sine();
+                    let mut s2 = signal::rate(44100.0).hz(signal::from_iter(ctl.iter().cloned())).noise_simplex();
+                    let mut h = signal::rate(44100.0).hz(signal::from_iter(ctl.iter().cloned()));
+                    for _ in 0..50 {
+                        black_box((s1.next(), s2.next(), s1.is_exhausted(), Signal::next(&mut h), h.is_exhausted()));
+                    }
+                }
+            });
+            v.push(hi);
+            v.push(lo);
+            v
+        }
+        "exhaustion_queries" => {
+            // is_exhausted of every adaptor, on sources that do and do not end, before and after the end; pulling
+            // past the end
+            let fr: Vec<[i16; 2]> = (0..12).map(|i| [i * 10, -i * 10]).collect();
+            let (mut t, mut f) = (0i64, 0i64);
+            let mut v = measure(k, |i| {
+                let n = 1 + i % 12;
+                let mk = || signal::from_iter(fr[..n].iter().cloned());
+                let mut base = mk();
+                let mut s1 = mk().scale_amp_per_channel([0.5f32, 0.25]);
+                let mut s2 = mk().offset_amp_per_channel([1i16, -1]);
+                let mut s3 = mk().zip_map(signal::equilibrium::<[i16; 2]>(), |a, b| a.add_amp(b));
+                let mut s4 = signal::equilibrium::<[i16; 2]>().zip_map(mk(), |a, b| a.add_amp(b));
+                let mut s5 = mk().add_amp(mk().delay(3));
+                let mut s6 = mk().mul_amp(signal::gen(|| [0.5f32, 0.5])).offset_amp(2).scale_amp(0.5).inspect(|f| {
+                    black_box(f);
+                });
+                let mut s7 = mk().delay(2 + i % 3);
+                let mut s8 = mk().map(|f| f).clip_amp(100);
+                let mut s9 = mk().take(5);
+                black_box((s9.size_hint(), s9.len()));
+                for _ in 0..16 {
+                    let e = [base.by_ref().is_exhausted(), s1.is_exhausted(), s2.is_exhausted(), s3.is_exhausted(), s4.is_exhausted(), s5.is_exhausted(), s6.is_exhausted(), s7.is_exhausted(), s8.is_exhausted()];
+                    for x in e.iter() {
+                        if *x {
+                            t += 1;
+                        } else {
+                            f += 1;
+                        }
+                    }
+                    black_box((base.by_ref().next(), s1.next(), s2.next(), s3.next(), s4.next(), s5.next(), s6.next(), s7.next(), s8.next(), s9.next(), s9.len()));
+                }
+                // interleaved samples: iterator form, clones, a trailing partial frame
+                let samples = [1i16, 2, 3, 4, 5, 6, 7];
+                let mut fi = signal::from_interleaved_samples_iter::<_, [i16; 3]>(samples.iter().cloned());
+                for _ in 0..4 {
+                    black_box((fi.is_exhausted(), fi.next()));
+                }
+                let il = mk().into_interleaved_samples();
+                let mut il2 = il.clone();
+                black_box(il2.next_sample());
+                let it = il.into_iter();
+                let it2 = it.clone();
+                black_box(it.count() + it2.take(3).count());
+            });
+            v.push(t);
+            v.push(f);
+            v
+        }
+        "consume_parts" => {
+            // the consuming accessors: into_parts / into_source / into_raw_parts on stack-backed instances built and
+            // taken apart inside the measured loop (construction on arrays needs no heap either)
+            let mut base = signal::gen_mut(|| [r.f() as f32]);
+            measure(k, |i| {
+                let mut rm = Rms::<[f32; 1], _>::new(ring_buffer::Fixed::from([[0.0f32; 1]; 6]));
+                rm.next([i as f32]);
+                let (win, sum) = rm.into_parts();
+                black_box((win.len(), sum));
+                let mut sr = base.by_ref().rms(ring_buffer::Fixed::from([[0.0f32; 1]; 3]));
+                black_box(sr.next());
+                let (_s, inner) = sr.into_parts();
+                black_box(inner.current());
+                let mut se = base.by_ref().detect_envelope(envelope::Detector::peak(1.0, 2.0));
+                black_box(se.next());
+                let (_s, mut det) = se.into_parts();
+                black_box(det.next([0.5]));
+                let mut bf = base.by_ref().buffered(ring_buffer::Bounded::from([[0.0f32; 1]; 4]));
+                black_box(bf.next());
+                let (_s, rb) = bf.into_parts();
+                black_box(rb.len());
+                let mut fk = base.by_ref().fork(ring_buffer::Bounded::from([[0.0f32; 1]; 4]));
+                {
+                    let (mut a, mut b) = fk.by_ref();
+                    black_box((a.next(), a.next(), b.pending_frames(), a.pending_frames(), b.next(), b.next(), b.next(), a.pending_frames(), b.pending_frames(), a.next()));
+                }
+                let bx = ring_buffer::Bounded::from([0u8; 3]);
+                black_box(bx.max_len());
+                let fxd = ring_buffer::Fixed::from([1u8, 2, 3]);
+                let (first, arr) = fxd.into_raw_parts();
+                black_box((first, arr));
+            })
+        }
+        "fork_rc_schedules" => {
+            // reference-counted branches (made before the measured part) pulled in every relative order: each branch
+            // leads, catches up, drains the other's backlog exactly and overtakes
+            let src = signal::gen_mut(|| [r.f()]);
+            let (mut a, mut b) = src.fork(ring_buffer::Bounded::from([[0.0f64; 1]; 8])).by_rc();
+            let mut wit = [0i64; 2];
+            let mut v = measure(k, |i| {
+                let (x, y) = (1 + i % 8, 1 + (i / 8) % 8);
+                if i % 2 == 0 {
+                    for _ in 0..x {
+                        black_box(a.next());
+                    }
+                    if b.pending_frames() > 0 {
+                        wit[0] += 1;
+                    }
+                    for _ in 0..(x + y % 3) {
+                        black_box(b.next());
+                    }
+                } else {
+                    for _ in 0..y {
+                        black_box(b.next());
+                    }
+                    if a.pending_frames() > 0 {
+                        wit[1] += 1;
+                    }
+                    for _ in 0..(y + x % 3) {
+                        black_box(a.next());
+                    }
+                }
+                black_box((a.pending_frames(), b.pending_frames()));
+            });
+            v.extend_from_slice(&wit);
+            v
+        }
+        "slice_all_forms" => {
+            // every free function and trait form of the borrowed-slice conversions, with lengths that do and do not
+            // divide into frames
+            use dasp_slice::{FromFrameSliceMut, FromSampleSlice, FromSampleSliceMut, ToFrameSliceMut, ToSampleSlice, ToSampleSliceMut};
+            let mut samples = vec![0i32; 48];
+            let mut okc = 0i64;
+            let mut v = measure(k, |i| {
+                let n = i % 49;
+                samples[i % 48] = r.next() as i32;
+                {
+                    let s = &samples[..n];
+                    let a: Option<&[[i32; 4]]> = slice::from_sample_slice(s);
+                    let b: Option<&[i32]> = slice::from_sample_slice(s);
+                    let c: Option<&[i32]> = FromSampleSlice::from_sample_slice(s);
+                    let d: &[i32] = ToSampleSlice::to_sample_slice(s);
+                    let e: &[i32] = slice::to_sample_slice(s);
+                    if a.is_some() {
+                        okc += 1;
+                    }
+                    black_box((a.map(|x| x.len()), b.map(|x| x.len()), c.map(|x| x.len()), d.len(), e.len()));
+                }
+                {
+                    let a: Option<&mut [[i32; 3]]> = slice::from_sample_slice_mut(&mut samples[..n]);
+                    if let Some(fr) = a {
+                        if let Some(f0) = fr.get_mut(0) {
+                            f0[0] = 1;
+                        }
+                        let back: &mut [i32] = slice::to_sample_slice_mut(fr);
+                        black_box(back.len());
+                    }
+                    let b: Option<&mut [i32]> = FromSampleSliceMut::from_sample_slice_mut(&mut samples[..n]);
+                    black_box(b.map(|x| x.len()));
+                    let c: &mut [i32] = ToSampleSliceMut::to_sample_slice_mut(&mut samples[..n]);
+                    black_box(c.len());
+                    let d: &mut [i32] = slice::to_sample_slice_mut(&mut samples[..n]);
+                    black_box(d.len());
+                    let e: Option<&mut [[i32; 2]]> = (&mut samples[..n]).to_frame_slice_mut();
+                    if let Some(fr) = e {
+                        let s2: &mut [i32] = FromFrameSliceMut::from_frame_slice_mut(fr);
+                        black_box(s2.len());
+                    }
+                    let f: Option<&mut [[i32; 6]]> = slice::to_frame_slice_mut(&mut samples[..n]);
+                    if let Some(fr) = f {
+                        let s3: &mut [i32] = slice::from_frame_slice_mut(fr);
+                        black_box(s3.len());
+                        let s4: &[i32] = slice::from_frame_slice(&fr[..]);
+                        black_box(s4.len());
+                        // the identity forms (&[F] <-> &[F])
+                        {
+                            use dasp_slice::{FromFrameSlice, ToFrameSlice};
+                            let id1: &[[i32; 6]] = slice::from_frame_slice(&fr[..]);
+                            let id2: &[[i32; 6]] = FromFrameSlice::from_frame_slice(id1);
+                            let id3: Option<&[[i32; 6]]> = ToFrameSlice::to_frame_slice(id2);
+                            black_box(id3.map(|x| x.len()));
+                        }
+                        let id4: &mut [[i32; 6]] = slice::from_frame_slice_mut(&mut fr[..]);
+                        let id5: &mut [[i32; 6]] = FromFrameSliceMut::from_frame_slice_mut(id4);
+                        let id6: Option<&mut [[i32; 6]]> = ToFrameSliceMut::to_frame_slice_mut(id5);
+                        black_box(id6.map(|x| x.len()));
+                    }
+                }
+            });
+            v.push(okc);
+            v
+        }
+        "frame_iters_mono" => {
+            // the channel iterators from both ends with their length reports; every Frame method on mono (bare
+            // sample) frames; from_samples with too few samples
+            let mut short = 0i64;
+            let mut v = measure(k, |i| {
+                let mut f = [r.i16(), r.i16(), r.i16(), i as i16];
+                {
+                    let mut c = f.channels();
+                    black_box((c.len(), c.next(), c.len(), c.size_hint()));
+                    let mut cr = f.channels_ref();
+                    black_box((cr.len(), cr.size_hint(), cr.next_back().cloned(), cr.next().cloned(), cr.len()));
+                }
+                {
+                    let mut cm = f.channels_mut();
+                    black_box((cm.len(), cm.size_hint()));
+                    if let Some(x) = cm.next_back() {
+                        *x = 7;
+                    }
+                    if let Some(x) = cm.next() {
+                        *x = 9;
+                    }
+                    black_box(cm.len());
+                }
+                unsafe {
+                    *f.channel_unchecked_mut(i % 4) = 3;
+                }
+                let few = [1i16, 2, 3];
+                if <[i16; 4]>::from_samples(&mut few[..(i % 4)].iter().cloned()).is_none() {
+                    short += 1;
+                }
+                black_box(<[i16; 3]>::from_samples(&mut few.iter().cloned()));
+                // mono frames
+                let m: f64 = r.unit();
+                let q: i16 = r.i16() / 4;
+                black_box((m.channels().count(), m.channels_ref().count(), m.channel(0).cloned(), m.channel(1).cloned(), <f64 as Frame>::from_fn(|_| 0.5)));
+                let mut mm = m;
+                for c in mm.channels_mut() {
+                    *c = 0.25;
+                }
+                if let Some(c) = mm.channel_mut(0) {
+                    *c = 0.125;
+                }
+                black_box(mm.channel_mut(1).is_none());
+                unsafe {
+                    *mm.channel_unchecked_mut(0) += 0.5;
+                    black_box(*mm.channel_unchecked(0));
+                }
+                black_box((<f64 as Frame>::from_samples(&mut [0.5f64].iter().cloned()), <f64 as Frame>::from_samples(&mut few[..0].iter().map(|x| *x as f64))));
+                black_box((q.to_signed_frame(), q.to_float_frame(), m.to_signed_frame(), m.to_float_frame()));
+                let mapped: f32 = Frame::map(q, |s: i16| s.to_sample::<f32>());
+                let zipped: i16 = Frame::zip_map(q, 3i16, |a, b| a / 2 + b);
+                black_box((mapped, zipped, Frame::scale_amp(q, 0.5), Frame::offset_amp(q, 3), Frame::add_amp(q, 5i16), Frame::mul_amp(q, 0.25f32)));
+                black_box((Frame::scale_amp(m, 0.5), Frame::offset_amp(m, 0.25), Frame::add_amp(m, 0.5f64), Frame::mul_amp(m, 0.25f64), <f64 as Frame>::EQUILIBRIUM));
+                let wide = <[u8; 32]>::from_fn(|c| c as u8 * 8);
+                black_box((wide.to_signed_frame(), wide.to_float_frame(), wide.channels().len()));
+            });
+            v.push(short);
+            v
+        }
+        "sample_all_formats" => {
+            // every ordered pair of the 14 sample formats, from family-driven values (floats clamped into the
+            // documented conversion domain [-1, 1) before a float -> integer conversion; anything goes float -> float)
+            use dasp_sample::{I48, U48};
+            macro_rules! to_all {
+                ($s:expr) => {{
+                    let s = $s;
+                    black_box((s.to_sample::<i8>(), s.to_sample::<i16>(), s.to_sample::<I24>(), s.to_sample::<i32>(), s.to_sample::<I48>(), s.to_sample::<i64>()));
+                    black_box((s.to_sample::<u8>(), s.to_sample::<u16>(), s.to_sample::<U24>(), s.to_sample::<u32>(), s.to_sample::<U48>(), s.to_sample::<u64>()));
+                    black_box((s.to_sample::<f32>(), s.to_sample::<f64>(), s.to_signed_sample(), s.to_float_sample()));
+                }};
+            }
+            macro_rules! from_all {
+                ($x:expr; $($S:ty)*) => { $( to_all!($x.to_sample::<$S>()); )* };
+            }
+            measure(k, |_| {
+                let x = r.i16();
+                from_all!(x; i8 i16 I24 i32 I48 i64 u8 u16 U24 u32 U48 u64 f32 f64);
+                let raw = r.f();
+                let d = if raw.is_nan() { 0.0 } else { raw.max(-1.0).min(0.999_999_9) };
+                to_all!(d);
+                to_all!(d as f32);
+                black_box((raw.to_sample::<f32>(), (raw as f32).to_sample::<f64>(), raw.to_float_sample(), raw.to_signed_sample()));
+                use dasp_sample::FloatSample;
+                black_box((raw.abs().sample_sqrt(), (raw as f32).abs().sample_sqrt(), raw.sample_sqrt(), <f64 as FloatSample>::IDENTITY));
+                black_box((Sample::mul_amp(x / 2, raw as f32), Sample::add_amp(d, raw), Sample::mul_amp(raw, raw)));
+            })
+        }
+        "custom_int_types" => {
+            // arithmetic and conversions of the non-std integer sample types on operands that stay in range
+            use dasp_sample::types::{I11, I20, U11, U20};
+            use dasp_sample::{I48, U48};
+            macro_rules! ops {
+                ($T:ident, $rep:ty, $a:expr, $b:expr) => {{
+                    let a = $T::new($a as $rep).unwrap();
+                    let b = $T::new($b as $rep).unwrap();
+                    black_box((a + b, a - b, a * b, a / b, a % b, a & b, a | b, a ^ b, a << b, a >> b, (!a).inner(), a.inner(), a < b, a == b));
+                    black_box(($T::from(($a as $rep).wrapping_mul(1021)), $T::new(<$rep>::MAX).is_none(), $T::new_unchecked($b as $rep), $T::default()));
+                }};
+            }
+            measure(k, |i| {
+                let a = 8 + (r.next() % 20) as i64;
+                let b = 1 + (i % 3) as i64;
+                ops!(I11, i16, a, b);
+                ops!(U11, i16, a, b);
+                ops!(I20, i32, a * 7, b);
+                ops!(U20, i32, a * 7, b);
+                ops!(I24, i32, a * 101, b);
+                ops!(U24, i32, a * 101, b);
+                ops!(I48, i64, a * 100_003, b);
+                ops!(U48, i64, a * 100_003, b);
+                ops!(I24, i32, -a * 101, b);
+                ops!(I48, i64, -a * 100_003, b);
+                black_box((-I11::new(a as i16).unwrap(), -I24::new(a as i32).unwrap(), -I48::new(-a).unwrap()));
+                black_box((I20::from(I11::new(5).unwrap()), I24::from(I20::new(9).unwrap()), I48::from(I24::new(-3).unwrap()), U24::from(U20::new(4).unwrap()), U48::from(U24::new(6).unwrap()), I48::from(i32::MIN), U48::from(u32::MAX), I24::from(i16::MIN), U24::from(255u8)));
+                black_box((I24::from(i32::MIN + i as i32), I24::from(i32::MAX - i as i32), U24::from(-5 - i as i32), I48::from(i64::MIN / 4), I11::from(-30000i16), U11::from(-1i16), I20::from(-(1 << 24)), U20::from(-3)));
+            })
+        }
+        "debug_fmt" => {
+            // Debug output of the API's own types into a stack buffer
+            use std::fmt::Write;
+            let rms = Rms::<[f32; 2], _>::new(ring_buffer::Fixed::from([[0.0f32; 2]; 3]));
+            let det = envelope::Detector::<[f32; 1], _>::peak(1.0, 2.0);
+            let bounded = ring_buffer::Bounded::from([0i16; 4]);
+            let fixed = ring_buffer::Fixed::from(vec![0i16; 4]);
+            let boxed = BoxedNode::new(node::Pass);
+            let boxed_send = BoxedNodeSend::new(node::Sum);
+            let buf = Buffer::SILENT;
+            let mut w = StackW { buf: [0; 2048], n: 0 };
+            let mut v = measure(k.min(200), |i| {
+                w.n = 0;
+                let _ = write!(w, "{:?}{:?}{:?}{:?}", rms, det, bounded, fixed);
+                let _ = write!(w, "{:?}{:?}{:?}{:?}", boxed, boxed_send, &buf[..(i % 8)], node::Pass);
+                if i % 4 == 0 {
+                    w.n = 0;
+                    let _ = write!(w, "{:?}", buf);
+                }
+                let _ = write!(w, "{:?}{:?}{:?}{:?}", I24::new(i as i32), dasp_peak::FullWave, node::Sum, node::SumBuffers);
+                black_box(w.n);
+            });
+            v.push(w.n as i64);
+            v
+        }
+        "size_sweep" => {
+            // the stateful objects over heap-backed storage (made before the measured part) of many sizes, 1 .. 65537 and
+            // around the powers of two in between: no size threshold in that range goes unvisited
+            use dasp_interpolate::Interpolator;
+            const SIZES: [usize; 17] = [1, 2, 3, 4, 7, 8, 9, 16, 31, 64, 255, 256, 257, 1024, 1025, 4097, 65537];
+            let mut rmss: Vec<_> = SIZES.iter().map(|n| Rms::<[f32; 1], _>::new(ring_buffer::Fixed::from(vec![[0.0f32; 1]; *n]))).collect();
+            let mut sincs: Vec<_> = SIZES.iter().filter(|n| **n <= 1025).map(|n| Sinc::new(ring_buffer::Fixed::from(vec![[0.0f32; 1]; 2 * *n]))).collect();
+            let mut bnds: Vec<_> = SIZES.iter().map(|n| ring_buffer::Bounded::from(vec![0i32; *n])).collect();
+            let mut fxds: Vec<_> = SIZES.iter().map(|n| ring_buffer::Fixed::from(vec![0i32; *n])).collect();
+            let mut bufd: Vec<_> = SIZES
+                .iter()
+                .map(|n| {
+                    let mut c = 0u32;
+                    signal::gen_mut(move || {
+                        c = c.wrapping_add(1);
+                        [c as f32]
+                    })
+                    .buffered(ring_buffer::Bounded::from(vec![[0.0f32; 1]; *n]))
+                })
+                .collect();
+            let mut forks: Vec<_> = SIZES
+                .iter()
+                .map(|n| {
+                    let mut c = 0u32;
+                    signal::gen_mut(move || {
+                        c = c.wrapping_add(3);
+                        [c as f32]
+                    })
+                    .fork(ring_buffer::Bounded::from(vec![[0.0f32; 1]; *n]))
+                })
+                .collect();
+            let mut delays: Vec<_> = SIZES.iter().map(|n| signal::gen(|| [0.25f32]).delay(*n)).collect();
+            let mut wins: Vec<_> = SIZES.iter().map(|n| dasp_signal::window::hann::<[f32; 1]>(*n)).collect();
+            let frames: Vec<[f32; 1]> = (0..70000).map(|i| [(i % 100) as f32 / 100.0]).collect();
+            let mut envs: Vec<_> = SIZES.iter().map(|n| envelope::Detector::<[f32; 1], _>::rms(ring_buffer::Fixed::from(vec![[0.0f32; 1]; *n]), *n as f32, 2.0 * *n as f32)).collect();
+            measure(k.min(20000), |i| {
+                let x = r.f() as f32;
+                for (j, n) in SIZES.iter().enumerate() {
+                    black_box(rmss[j].next([x]));
+                    black_box(envs[j].next([x]));
+                    black_box(bnds[j].push(i as i32));
+                    if i % 3 == 0 {
+                        black_box(bnds[j].pop());
+                    }
+                    black_box(fxds[j].push(i as i32));
+                    black_box((bufd[j].next(), delays[j].next(), wins[j].next()));
+                    {
+                        let (mut a, mut b) = forks[j].by_ref();
+                        let m = 1 + i % 3;
+                        for _ in 0..m {
+                            black_box(a.next());
+                        }
+                        for _ in 0..m {
+                            black_box(b.next());
+                        }
+                    }
+                    if i % 64 == j {
+                        bnds[j].extend(0..(*n as i32 + 3));
+                        fxds[j].extend(0..(*n as i32 + 3));
+                        black_box(bnds[j].drain().count());
+                        rmss[j].reset();
+                        let mut w = Windower::hann(&frames[..], *n, *n);
+                        black_box(w.size_hint());
+                        if let Some(chunk) = w.next() {
+                            black_box(chunk.take(3).count());
+                        }
+                        black_box(w.next().is_some());
+                    }
+                }
+                for (j, si) in sincs.iter_mut().enumerate() {
+                    si.next_source_frame([x]);
+                    if i % 16 == j {
+                        black_box(si.interpolate((i % 7) as f64 / 7.0));
+                    }
+                }
+            })
+        }
         _ => vec![-1],
     }
 }
@@ -961,15 +2022,83 @@ where
     black_box(rb.len());
 }
 
+macro_rules! caps_case {
+    ($gty:ty, $stable:tt, $cap0:expr, $ops:expr) => {{
+        let ops: &Vec<Vec<&str>> = $ops;
+        let mut g: $gty = <$gty>::default();
+        let mut p: Processor<$gty> = Processor::with_capacity($cap0);
+        let mut out: Vec<String> = Vec::new();
+        for op in ops {
+            let a: Vec<usize> = op[1..].iter().map(|t| t.parse().unwrap()).collect();
+            match op[0] {
+                "N" => {
+                    g.add_node(NodeData::new1(BoxedNode::new(node::Pass)));
+                }
+                "E" => {
+                    g.add_edge(petgraph::graph::NodeIndex::new(a[0]), petgraph::graph::NodeIndex::new(a[1]), ());
+                }
+                "R" => {
+                    caps_case!(@remove $stable, g, a[0]);
+                }
+                "P" => {
+                    let before = snap();
+                    p.process(&mut g, petgraph::graph::NodeIndex::new(a[0]));
+                    let after = snap();
+                    let c = p.verif_capacities();
+                    out.push(join(&[
+                        c.0 as i64,
+                        c.1 as i64,
+                        (after.0 - before.0 + after.1 - before.1) as i64,
+                        (after.2 - before.2) as i64,
+                    ]));
+                }
+                other => panic!("unknown op {}", other),
+            }
+        }
+        out.join(";")
+    }};
+    (@remove true, $g:ident, $a:expr) => {
+        $g.remove_node(petgraph::graph::NodeIndex::new($a));
+    };
+    (@remove false, $g:ident, $a:expr) => {{
+        let _ = $a;
+        panic!("R is only supported on StableGraph")
+    }};
+}
+
+fn caps_line(line: &str) -> String {
+    let mut parts = line.splitn(2, ';');
+    let head: Vec<&str> = parts.next().unwrap().split_whitespace().collect();
+    let cap0: usize = head[2].parse().unwrap();
+    let ops: Vec<Vec<&str>> = parts
+        .next()
+        .unwrap_or("")
+        .split(',')
+        .map(|o| o.split_whitespace().collect::<Vec<_>>())
+        .filter(|o| !o.is_empty())
+        .collect();
+    type PG = petgraph::graph::DiGraph<NodeData<BoxedNode>, ()>;
+    type SG = petgraph::stable_graph::StableDiGraph<NodeData<BoxedNode>, ()>;
+    match head[1] {
+        "G" => caps_case!(PG, false, cap0, &ops),
+        "S" => caps_case!(SG, true, cap0, &ops),
+        other => panic!("unknown graph kind {}", other),
+    }
+}
+
 fn main() {
     serve(|line| {
         let t: Vec<&str> = line.split_whitespace().collect();
         if t[0] == "list" {
             return NAMES.join(" ");
         }
+        if t[0] == "caps" {
+            return caps_line(line);
+        }
         let k: usize = t[1].parse().unwrap();
         let seed: u64 = t[2].parse().unwrap();
-        let v = run(t[0], k, seed);
+        let fam: u8 = if t.len() > 3 { t[3].parse().unwrap() } else { 0 };
+        let v = run(t[0], k, seed, fam);
         join(&v)
     });
 }
